@@ -297,7 +297,29 @@ inline void Driver::stepAuthority(Inst& in, long k) {
 			const int reg = (int)(next() % (uint64_t)VH_SHAPE.nRegions);
 			const int what = (int)(next() % 10);
 			if (what < 7) vhPlanAppend(m.plan((hfsm2::RegionID)reg), p, reg, -1);
-			else if (what < 9) planRemove(m.plan((hfsm2::RegionID)reg), p, reg, (int)(next() % 4), -1);
+			else if (what < 8) planRemove(m.plan((hfsm2::RegionID)reg), p, reg, (int)(next() % 4), -1);
+			else if (what < 9) {
+				// remove the last task through a live iterator, append to this and to another region's plan, then go on iterating:
+				// whatever the iterator yields afterwards (and removes) must be a task of its own region
+				auto plan = m.plan((hfsm2::RegionID)reg);
+				int n = 0; for (auto it = plan.begin(); it && n < 100000; ++it) ++n;
+				if (n) {
+					auto it = plan.begin(); for (int i = 0; i + 1 < n && it; ++i) ++it;
+					if (it) {
+						log.tag('X'); log.i(reg); log.i(n - 1); log.i(transId(*it)); log.i(-1); log.nl();
+						it.remove();
+						const int other = (int)(next() % (uint64_t)VH_SHAPE.nRegions);
+						vhPlanAppend(m.plan((hfsm2::RegionID)other), p, other, -1);		// takes the slot just freed
+						vhPlanAppend(m.plan((hfsm2::RegionID)other), p, other, -1);		// linked behind it
+						if (next() & 1) vhPlanAppend(m.plan((hfsm2::RegionID)reg), p, reg, -1);
+						++it;
+						for (int guard = 0; it && guard < 4; ++guard) {
+							log.tag('X'); log.i(reg); log.i(-1); log.i(transId(*it)); log.i(-1); log.nl();
+							it.remove(); ++it;
+						}
+					}
+				}
+			}
 			else { log.tag('K'); log.i(reg); log.nl(); m.plan((hfsm2::RegionID)reg).clear(); }
 		}
 		opEnd(in); break; }
